@@ -170,6 +170,7 @@ def run(ctx):
             cov.sample({"family": name, "spec": fam.spec, "query_rows": idx, "pred": p.tolist()})
     negative_activations(ctx)
     tiny_covariance(ctx)
+    near_boundary(ctx)
     e2e.base_histories(ctx, "C08", ctx.scale(150, 3000), ctx.scale(20, 80), fields=("labels",))
     e2e.smap_histories(ctx, "C08", ctx.scale(100, 2000), ctx.scale(16, 60))
 
@@ -279,3 +280,141 @@ def tiny_covariance(ctx):
             cov.case(("tinycov", spec, rep["X"]), len(owner.W) >= 2)
         except Exception as e:
             cov.hit(f"tiny-covariance:raised:{exc_enum(e)}")
+
+
+NB_FAMS = [f for f in families.ELEM if f != "ART1"] + ["FusionART", "SimpleARTMAP", "ARTMAP", "DualVigilanceART",
+                                                        "TopoART", "CVIART", "iCVIFuzzyART"]
+NB_OFFSETS = (0.0, 1e-13, 1e-12, 1e-11, 1e-10, 1e-9, 1e-8)
+
+
+def _nb_owner(name, est):
+    """(module whose public activation function decides, label carried by category c)"""
+    if name in ("SimpleARTMAP", "ARTMAP"):
+        return est.module_a, (lambda c: int(est.map[c]))
+    if name == "DualVigilanceART":
+        return est.base_module, (lambda c: int(est.map[c]))
+    if name in ("TopoART", "CVIART"):
+        return est.base_module, int
+    return est, int
+
+
+def _nb_acts(owner, x):
+    return [float(owner.category_choice(x, w, params=owner.params)[0]) for w in list(owner.W)]
+
+
+def _nb_first_argmax(T):
+    """oldest category of maximal activation (None when an activation is NaN)"""
+    if any(t != t for t in T):
+        return None
+    return int(np.argmax(T))
+
+
+def near_boundary(ctx):
+    """queries a hair away from a decision boundary, on either side of it.  Two rows (training rows or fresh rows) whose
+    categories of maximal activation differ are joined by a segment; bisection on the public activation function
+    narrows the segment down to two neighbouring points with different winners; the query batch holds points at
+    distances 0 .. 1e-8 (in the segment's parameter) on both sides of that boundary, where the two best activations
+    agree to a relative 1e-9 and better without being equal.  Each such row must still receive the oldest category of
+    *maximal* activation (through the label map where there is one): a strictly smaller activation never wins,
+    however close it is, whether the runner-up is the older or the newer category."""
+    cov = ctx.cov
+    for i in range(ctx.scale(140, 3000)):
+        r = gen.rng_for(ctx.seed, "C08-boundary", i)
+        name = NB_FAMS[i % len(NB_FAMS)]
+        fam, rows = families.build(r, name, r.randint(3, ctx.scale(14, 40)), floats=r.random() < 0.4)
+        if any(c == "ART1" for c, _ in fam.groups):
+            cov.hit("near-boundary:skipped-binary-channel")       # no segment between two binary rows
+            continue
+        n = len(rows)
+        desc = dict(fam.describe(), rows=rows.tolist())
+        est = fam.make()
+        try:
+            if fam.has_pfit and r.random() < 0.3:
+                k = r.randint(1, n)
+                fam.pfit(est, rows.sl(0, k))
+                fam.pfit(est, rows.sl(k, n) if k < n else rows.sl(0, max(1, k // 2)))
+                desc["batches"] = [k]
+            else:
+                fam.fit(est, rows)
+        except Exception as e:
+            cov.hit(f"near-boundary:train-raised:{name}:{exc_enum(e)}")
+            continue
+        owner, label_of = _nb_owner(name, est)
+        if len(owner.W) < 2:
+            cov.hit("near-boundary:fewer-than-two-categories")
+            cov.case(("boundary", name, fam.spec, desc["rows"]), False)
+            continue
+        # end points: training rows and rows never trained on
+        P = np.asarray(rows.arrs["X"], dtype=float)
+        if getattr(fam, "fresh", None) is not None:
+            P = np.vstack([P, np.asarray(fam.fresh(r, 8, floats2=r.random() < 0.5).arrs["X"], dtype=float)])
+        with quiet():
+            win = [_nb_first_argmax(_nb_acts(owner, x)) for x in P]
+        pairs = [(a, b) for a in range(len(P)) for b in range(len(P))
+                 if win[a] is not None and win[b] is not None and win[a] != win[b]]
+        if not pairs:
+            cov.hit("near-boundary:all-rows-one-winner")
+            cov.case(("boundary", name, fam.spec, desc["rows"]), False)
+            continue
+        r.shuffle(pairs)
+        Q, segs = [], []
+        for a, b in pairs[:3]:
+            xa, xb = P[a], P[b]
+
+            def at(t):
+                return np.clip((1.0 - t) * xa + t * xb, np.minimum(xa, xb), np.maximum(xa, xb))
+            lo, hi = 0.0, 1.0
+            with quiet():
+                for _ in range(64):
+                    mid = 0.5 * (lo + hi)
+                    if mid <= lo or mid >= hi:
+                        break
+                    if _nb_first_argmax(_nb_acts(owner, at(mid))) == win[a]:
+                        lo = mid
+                    else:
+                        hi = mid
+            segs.append({"from": P[a].tolist(), "to": P[b].tolist(), "t_lo": lo, "t_hi": hi})
+            for dlt in NB_OFFSETS:
+                Q.append(at(max(0.0, lo - dlt)))
+                Q.append(at(min(1.0, hi + dlt)))
+        Q = np.array(Q)
+        rep = dict(desc, segments=segs, query=Q.tolist())
+        try:
+            with quiet():
+                p = as_cols(est.predict(Q))[:, 0]
+                pa = np.asarray(est.predict_ab(Q)[0]) if name in ("SimpleARTMAP", "ARTMAP") else None
+                Ts = [_nb_acts(owner, x) for x in Q]
+        except Exception as e:
+            cov.hit(f"near-boundary:predict-raised:{name}:{exc_enum(e)}")
+            ctx.issue("violation", f"{name}.predict:{exc_enum(e)}", f"predict raised {e!r} on rows between two valid rows", rep)
+            continue
+        newer_side = False
+        for k, T in enumerate(Ts):
+            best = _nb_first_argmax(T)
+            if best is None:
+                cov.hit("near-boundary:nan-activation")
+                continue
+            tol = 1e-9 * abs(T[best])
+            close_older = [j for j in range(best) if T[j] < T[best] and T[best] - T[j] <= tol]
+            close_newer = [j for j in range(best + 1, len(T)) if T[j] < T[best] and T[best] - T[j] <= tol]
+            if close_older:
+                newer_side = True
+                cov.hit("near-boundary:newer-wins-older-within-1e-9")
+            if close_newer:
+                cov.hit("near-boundary:older-wins-newer-within-1e-9")
+            if any(T[j] == T[best] for j in range(best + 1, len(T))):
+                cov.hit("near-boundary:exact-tie")
+            how = ("an older category is within a relative 1e-9 but strictly smaller" if close_older else
+                   "a newer category is within a relative 1e-9 but strictly smaller" if close_newer else "no near tie")
+            if pa is not None and int(pa[k]) != best:
+                ctx.issue("violation", f"{name}.predict_ab:not-first-argmax:near-boundary",
+                          f"row {k}: A-side category {int(pa[k])} (activation {T[int(pa[k])]!r}) but the maximal activation "
+                          f"{T[best]!r} belongs to category {best} ({how}); activations {T}", dict(rep, row=k))
+                break
+            if int(p[k]) != label_of(best):
+                ctx.issue("violation", f"{name}.predict:not-first-argmax:near-boundary",
+                          f"row {k}: predicted {int(p[k])}, expected {label_of(best)} = label of category {best}, the oldest "
+                          f"category of maximal activation {T[best]!r} ({how}); activations {T}", dict(rep, row=k))
+                break
+        cov.hit(f"near-boundary:{'hosted' if owner is not est else 'bare'}")
+        cov.case(("boundary", name, fam.spec, desc["rows"], [s["t_lo"] for s in segs]), newer_side)
